@@ -10,7 +10,11 @@ import (
 )
 
 func vNewClient(conn net.PacketConn, rto time.Duration) *Client {
-	return &Client{conn: conn, trMap: client.NewTransactionMap(), rto: rto, log: &allocation.VLogger{}}
+	c := &Client{conn: conn, trMap: client.NewTransactionMap(), rto: rto, log: &allocation.VLogger{}}
+	// completing a transaction = finding and removing it in one critical section of mutexTrMap, so that the
+	// response path and the retransmission timer can never both complete the same transaction
+	vGuardDeletes(c.trMap.VEntries(), &c.mutexTrMap, "C12.transactions_are_completed_under_the_table_lock")
+	return c
 }
 
 func vRequestMsg() *stun.Message {
